@@ -82,6 +82,7 @@ REQUIRED_CLASSES = (['class:Nasa', 'class:Nasa9', 'class:Shomate'] +
                      'kw_order:shared_x_before_block', 'kw_order:shared_x_after_block', 'kw_order:P_first',
                      'kw_order:P_last', 'kw_order:P_between', 'array:tuple'] +
                     ['dim:%s:%s' % (n, k) for n in ('Cp', 'H', 'S', 'G') for k in ('scalar', 'list', 'tuple', 'ndarray')] +
+                    ['dim:len1_list', 'dim:len1_tuple', 'dim:len1_ndarray'] +
                     ['T:array_repeats', 'T:array_all_equal', 'T:array_descending', 'T:array_unsorted',
                      'model:gas_raw_entry', 'raw_entry:alone', 'raw_entry:first', 'raw_entry:last',
                      'raw_entry:middle',
@@ -100,9 +101,7 @@ ASSUMPTIONS = [
     'when a ConstantMode is attached (its own G attribute is independent of its H and S)',
     'return shapes are normalised (size-1 array vs scalar is shape, not value)',
     'DIM uses one unit per quantity (unit algebra is C04) and the species own dimensionless getter as the reference '
-    '(the dimensionless value itself is decided by M1); a ONE-element list / tuple T in a dimensional getter is '
-    'telemetry only (extra.dim_len1_sequence_*): Shomate.get_H / get_G raise TypeError there (float * list), which is '
-    'the C04 / C02 shape defect, not a correction being dropped',
+    '(the dimensionless value itself is decided by M1); one-element lists / tuples / ndarrays are decided as given',
     'a shared x= and a <name_j>_kwargs block in the same call: the block wins for the models watching j (what '
     '_get_specie_kwargs documents: species specific parameters are merged over the shared ones)',
     'CNT counts the model getters of Cp, H, S (G is H - S and may legitimately be assembled either way); it presumes '
@@ -875,17 +874,9 @@ def _dim(ev, obj, hist):
                 T_in = list(T) if kind == 'list' else tuple(T) if kind == 'tuple' else T_arr
             mech = dict(ev.base, q=name, T_kind='scalar' if kind == 'scalar' else 'array', T_type=kind,
                         clause='DIM', **hist)
-            if len(T_arr) == 1 and kind in ('list', 'tuple'):
-                # one-element sequences: shape defect of the unit layer (C04/C02), telemetry only; the verdict
-                # is taken with the same temperature as an ndarray
-                try:
-                    getattr(obj, 'get_' + name)(T=T_in, units=unit, **_kwargs(cond))
-                    key = 'dim_len1_sequence_ok'
-                except Exception as e:                       # noqa
-                    key = 'dim_len1_sequence_%s_%s_%s' % (type(obj).__name__, name, type(e).__name__)
-                ctx.extra[key] = ctx.extra.get(key, 0) + 1
-                kind, T_in = 'ndarray', T_arr
-                mech['T_type'] = kind
+            if len(T_arr) == 1 and kind != 'scalar':
+                ctx.cls('dim:len1_%s' % kind)                # one-element sequences are decided as given
+                mech['T_len1'] = True
             ctx.cls('dim:%s:%s' % (name, kind))
             v = ctx.call('DIM', mech, getattr(obj, 'get_' + name), T=T_in, units=unit, **_kwargs(cond))
             d = ctx.call('DIM', dict(mech, step='dimensionless'), getattr(obj, 'get_' + dl), T=T_in, **_kwargs(cond))
